@@ -248,39 +248,10 @@ func (maps *trackedMaps) processUnfiltered(ctx context.Context, ef *Filter, filt
 					if err := ef.filterSlice(ctx, classificationTag, field, opt...); err != nil {
 						return fmt.Errorf("%s: unable to filter slice of strings: %w", op, err)
 					}
-				// if the field is a slice of structs, recurse through them...
+				// any other slice: recurse through its elements...
 				default:
-					for i := 0; i < field.Len(); i++ {
-						f := field.Index(i)
-						if f.Kind() == reflect.Interface {
-							f = f.Elem()
-						}
-						if f.Kind() == reflect.Ptr {
-							f = f.Elem()
-						}
-						if f.Type() == reflect.TypeOf(structpb.Struct{}) {
-							f = f.FieldByName("Fields")
-						}
-						newMaps, err := newTrackedMaps()
-						if err != nil {
-							return fmt.Errorf("%s: unable to create new tracked maps for slice: %w", op, err)
-						}
-						fkind := f.Kind()
-						switch {
-						case fkind == reflect.Struct:
-							if err := ef.filterField(ctx, f, filterOverrides, newMaps, opt...); err != nil {
-								return fmt.Errorf("%s: unable to filter slice of structs: %w", op, err)
-							}
-						case fkind == reflect.Map:
-							newMaps.trackMap(&tMap{
-								value: f,
-							})
-						default:
-							// nothing reasonable yet...
-						}
-						if err := newMaps.processUnfiltered(ctx, ef, filterOverrides, opt...); err != nil {
-							return fmt.Errorf("%s: unable to process maps found in slice: %w", op, err)
-						}
+					if err := ef.filterUnclassifiedSlice(ctx, field, classificationTag, filterOverrides, opt...); err != nil {
+						return fmt.Errorf("%s: %w", op, err)
 					}
 				}
 
@@ -403,6 +374,94 @@ func (maps *trackedMaps) trackTaggable(taggable Taggable, pointer string) error 
 			return fmt.Errorf("%s: unable to get tracked map", op)
 		}
 		tm.markFieldFiltered(segs[len(segs)-1])
+	}
+	return nil
+}
+
+// isStringOrBytes reports whether v is a string, a []byte, or a defined type
+// with one of those as its underlying type.
+func isStringOrBytes(v reflect.Value) bool {
+	return v.Kind() == reflect.String || (v.Kind() == reflect.Slice && v.Type().Elem().Kind() == reflect.Uint8)
+}
+
+// filterUnclassifiedValue filters a string or []byte (or a value of a defined
+// type with one of those as its underlying type) found in a map as unclassified
+// data.  It returns the filtered value, which has the type of v.
+func (ef *Filter) filterUnclassifiedValue(ctx context.Context, v reflect.Value, classificationTag *tagInfo, opt ...Option) (reflect.Value, error) {
+	const op = "event.(Filter).filterUnclassifiedValue"
+	var f reflect.Value
+	switch {
+	case v.Kind() == reflect.String:
+		s := v.String()
+		f = reflect.Indirect(reflect.ValueOf(&s))
+	case v.IsNil():
+		return v, nil
+	default:
+		b := v.Bytes()
+		f = reflect.Indirect(reflect.ValueOf(&b))
+	}
+	if err := ef.filterValue(ctx, f, classificationTag, opt...); err != nil {
+		return reflect.Value{}, fmt.Errorf("%s: %w", op, err)
+	}
+	return f.Convert(v.Type()), nil
+}
+
+// filterUnclassifiedSlice filters the elements of a slice found in a map (a
+// []interface{}, a slice of structs, a slice of maps, ...): strings and []byte
+// are unclassified data, structs and maps are filtered like the ones found
+// directly in the map, and slices within the slice are recursed into.
+func (ef *Filter) filterUnclassifiedSlice(ctx context.Context, slice reflect.Value, classificationTag *tagInfo, filterOverrides map[DataClassification]FilterOperation, opt ...Option) error {
+	const op = "event.(Filter).filterUnclassifiedSlice"
+	for i := 0; i < slice.Len(); i++ {
+		f := slice.Index(i)
+		if f.Kind() == reflect.Interface {
+			f = f.Elem()
+		}
+		if f.Kind() == reflect.Ptr {
+			f = f.Elem()
+		}
+		if !f.IsValid() {
+			// a nil element: there's nothing to filter
+			continue
+		}
+		if f.Type() == reflect.TypeOf(structpb.Struct{}) {
+			f = f.FieldByName("Fields")
+		}
+		newMaps, err := newTrackedMaps()
+		if err != nil {
+			return fmt.Errorf("%s: unable to create new tracked maps for slice: %w", op, err)
+		}
+		fkind := f.Kind()
+		switch {
+		case fkind == reflect.Struct:
+			if err := ef.filterField(ctx, f, filterOverrides, newMaps, opt...); err != nil {
+				return fmt.Errorf("%s: unable to filter slice of structs: %w", op, err)
+			}
+		case fkind == reflect.Map:
+			newMaps.trackMap(&tMap{
+				value: f,
+			})
+		case isStringOrBytes(f):
+			nf, err := ef.filterUnclassifiedValue(ctx, f, classificationTag, opt...)
+			if err != nil {
+				return fmt.Errorf("%s: unable to filter slice element: %w", op, err)
+			}
+			if f.CanSet() {
+				f.Set(nf)
+			} else {
+				// the element is held in an interface
+				slice.Index(i).Set(nf)
+			}
+		case fkind == reflect.Slice:
+			if err := ef.filterUnclassifiedSlice(ctx, f, classificationTag, filterOverrides, opt...); err != nil {
+				return err
+			}
+		default:
+			// nothing reasonable yet...
+		}
+		if err := newMaps.processUnfiltered(ctx, ef, filterOverrides, opt...); err != nil {
+			return fmt.Errorf("%s: unable to process maps found in slice: %w", op, err)
+		}
 	}
 	return nil
 }
